@@ -83,9 +83,9 @@ def body():
         n_tlc = len(behs)
         tlc_perts = sum(len(b["perts"]) for b in behs)
         tlc_covered = sum(1 for b in behs for p in b["perts"] if p["c"] or p["d"])
-        behs += random_shapes(rng, 1500 if thorough else 150, 6)
+        behs += random_shapes(rng, 1200 if thorough else 150, 6)
         for b in behs:
-            b["trials"] = 3 if thorough else 1
+            b["trials"] = 2 if thorough else 1
         rng.shuffle(behs)
         rb = V.replay_behaviours()
         if rb is not None:
